@@ -232,7 +232,9 @@ func litToVal(lit string) *model.Val {
 func (d *Docs) conform(n *model.Node, depth int) *model.Val {
 	r := d.R
 	d.budget--
-	if depth > 12+d.Deep {
+	if depth > 12+d.Deep || d.budget < -600 {
+		// too deep, or required references that branch along a cycle: cut (the document is then
+		// judged as it is, like any other non-conforming one)
 		return model.VNullV()
 	}
 	if d.Deep == 0 && n.BoolRule("nullable") && r.Chance(1, 6) {
